@@ -158,6 +158,7 @@ impl TaikoDifficultyObjects {
         self.objects.push(hit_object);
     }
 
+    #[allow(dead_code)]
     pub fn is_empty(&self) -> bool {
         self.objects.is_empty()
     }
